@@ -82,6 +82,10 @@ def run_jobs(jobs):
     return out
 
 
+def rt_cfg(consts: dict) -> str:
+    return tlc.cfg_text(dict(consts, IdleOnAnyDone=consts.get("IdleOnAnyDone", False)), invariants=RT_INVS)
+
+
 LIFE_INVS = ["Inv_C14_MainAfterAllInit", "Inv_C14_FinalizedOnce", "Inv_C14_Outcome", "Inv_C14_LogFactoryRestored",
              "Inv_C14_PoolCancelledBeforeFinalize"]
 RT_INVS = ["Inv_C14_NoCrash", "Inv_C14_BoundedConcurrency", "Inv_C15_NeverEarly", "Inv_C15_PerSourceOrder",
@@ -112,7 +116,7 @@ def check(rep: Report, tier: str, seed: int, prop: str = None):
             rep.extra["must_fail_lifecycle"] = {"GuardEach": False, "violated": bad.violated}
         for consts in ([dict(MaxC=1, NJobs=1, NEvents=2, NIdle=0, MaxNow=4, FixPool=True), dict(MaxC=2, NJobs=2, NEvents=2, NIdle=2, MaxNow=3, FixPool=True)]
                        + ([] if quick else [dict(MaxC=1, NJobs=2, NEvents=3, NIdle=2, MaxNow=4, FixPool=True)])):
-            res = tlc.run("RtDispatcher", tlc.cfg_text(consts, invariants=RT_INVS), workdir=wd, timeout=1500)
+            res = tlc.run("RtDispatcher", rt_cfg(consts), workdir=wd, timeout=1500)
             rep.add_tlc("RtDispatcher/MC", res, consts, "loop iterations with two concurrent pushers, every interleaving with handler completions and the clock")
             if not res.ok:
                 rep.violation(Violation(prop, res.violated, "mc", {"constants": consts, "trace": (res.counterexample or [])[-2:]},
@@ -120,7 +124,7 @@ def check(rep: Report, tier: str, seed: int, prop: str = None):
         # beyond the exhaustive bounds: random behaviours of the same model at larger constants (TLC -simulate)
         for k, consts in enumerate([dict(MaxC=2, NJobs=3, NEvents=4, NIdle=2, MaxNow=8, FixPool=True)]
                                    + ([] if quick else [dict(MaxC=3, NJobs=2, NEvents=5, NIdle=3, MaxNow=10, FixPool=True)])):
-            res = tlc.run("RtDispatcher", tlc.cfg_text(consts, invariants=RT_INVS), workdir=wd, mode="sim", sim_num=150 if quick else 4000,
+            res = tlc.run("RtDispatcher", rt_cfg(consts), workdir=wd, mode="sim", sim_num=150 if quick else 4000,
                           sim_depth=120, seed=seed + k, workers=8, timeout=900)
             rep.add_tlc("RtDispatcher/SIM", res, consts, "random behaviours of the realtime loop model beyond the exhaustive bounds (depth 120)")
             if not res.ok:
@@ -128,21 +132,26 @@ def check(rep: Report, tier: str, seed: int, prop: str = None):
                                         discriminator="model:rt-sim"))
         if not quick:
             consts = dict(MaxC=2, NJobs=2, NEvents=3, NIdle=1, MaxNow=4, FixPool=True)
-            res = tlc.run("RtDispatcher", tlc.cfg_text(consts, invariants=RT_INVS), workdir=wd, timeout=2400)
+            res = tlc.run("RtDispatcher", rt_cfg(consts), workdir=wd, timeout=2400)
             rep.add_tlc("RtDispatcher/MC", res, consts, "deeper exhaustive configuration: pool of two, two jobs, three events, one idle handler")
             if not res.ok:
                 rep.violation(Violation(prop, res.violated, "mc", {"constants": consts, "trace": (res.counterexample or [])[-2:]},
                                         discriminator="model:rt"))
-            bad = tlc.run("RtDispatcher", tlc.cfg_text(dict(MaxC=2, NJobs=3, NEvents=4, NIdle=2, MaxNow=8, FixPool=False), invariants=RT_INVS),
+            bad = tlc.run("RtDispatcher", rt_cfg(dict(MaxC=2, NJobs=3, NEvents=4, NIdle=2, MaxNow=8, FixPool=False)),
                           workdir=wd, mode="sim", sim_num=4000, sim_depth=120, seed=seed, workers=8, timeout=900, dump_trace=False)
             if bad.ok:
                 raise tlc.MachineryError("must-fail simulation (pool without the double-collection guard, larger constants) was accepted")
             rep.extra["must_fail_sim"] = {"FixPool": False, "violated": bad.violated}
-            res = tlc.run("RtDispatcher", tlc.cfg_text(dict(MaxC=1, NJobs=1, NEvents=2, NIdle=0, MaxNow=4, FixPool=False), invariants=RT_INVS),
+            res = tlc.run("RtDispatcher", rt_cfg(dict(MaxC=1, NJobs=1, NEvents=2, NIdle=0, MaxNow=4, FixPool=False)),
                           workdir=wd, dump_trace=False)
             if res.ok:
                 raise tlc.MachineryError("must-fail config (pool without the double-collection guard) was accepted")
             rep.extra["must_fail"] = {"FixPool": False, "violated": res.violated}
+            bad = tlc.run("RtDispatcher", rt_cfg(dict(MaxC=2, NJobs=2, NEvents=2, NIdle=2, MaxNow=3, FixPool=True, IdleOnAnyDone=True)), workdir=wd,
+                          dump_trace=False)
+            if bad.ok or bad.violated != "Inv_C15_IdleOnlyWhenIdle":
+                raise tlc.MachineryError(f"must-fail config (idle handlers pushed when wait() reports a finished task) gave {bad.violated}")
+            rep.extra["must_fail_idle"] = {"IdleOnAnyDone": True, "violated": bad.violated}
         rep.exhaustive = True
         # ---- implementation ------------------------------------------------------------------------------------
         jobs = []
